@@ -246,6 +246,9 @@ Emit ==
 
 \* pointers are interchangeable: states that differ only in the ids are one state
 View == <<vtype, Proj(M), amap, h>>
+\* Mode "graph": the nodes are the implementation states (in the corrected design amap is
+\* Abs(M) anyway; with a deviation on it may drift away from M without bound)
+GraphView == <<vtype, Proj(M)>>
 
 -----------------------------------------------------------------------------
 (* the key encoding alone (C08) *)
